@@ -89,10 +89,16 @@ pub fn extract(prm: &Params, proof: &Proof, challenges: &[Scalar]) -> Option<Non
 }
 
 /// Prove under the probe; returns (proof, challenges, RNG-derived 64-byte draws reduced mod l, events)
-pub fn probed_prove(case: &Case, kind: &RngKind) -> Result<(Proof, Vec<Scalar>, Vec<Scalar>, Vec<probe::Event>), String> {
-    let mut prng = FaultRng::new(kind.clone());
+/// `None`: the convenience entry point `RangeProof::prove`, which draws from the operating system's generator
+pub fn probed_prove_from(case: &Case, kind: Option<&RngKind>) -> Result<(Proof, Vec<Scalar>, Vec<Scalar>, Vec<probe::Event>), String> {
     probe::arm();
-    let r = no_panic(|| case.prove(&mut prng));
+    let r = match kind {
+        Some(kind) => {
+            let mut prng = FaultRng::new(kind.clone());
+            no_panic(|| case.prove(&mut prng))
+        },
+        None => no_panic(|| case.try_witness().and_then(|w| tari_bulletproofs_plus::range_proof::RangeProof::prove(&mut case.transcript(), &case.statement(), &w))),
+    };
     let ev = probe::take();
     let proof = r?.map_err(|e| e.to_string())?;
     let ch: Vec<Scalar> = ev.iter().filter(|e| e.kind == Kind::Challenge && e.data.len() == 64).map(|e| wide(&e.data)).collect();
@@ -131,13 +137,19 @@ fn one(ctx: &Ctx, rep: &mut Report, id: usize, cfg: Cfg, k: usize, global: &mut 
     let prm = case.params();
     let replay = |what: &str| json!({"tier": if ctx.thorough() {"thorough"} else {"quick"}, "seed": ctx.seed, "leg": "fm", "case": id, "descr": case.json(), "step": what});
     // the same instance under several external RNGs (healthy x2 and faulty ones)
-    let mut kinds = vec![RngKind::Healthy(rng.next_u64()), RngKind::Healthy(rng.next_u64())];
+    let mut kinds = vec![Some(RngKind::Healthy(rng.next_u64())), Some(RngKind::Healthy(rng.next_u64()))];
     let all = rng_kinds(0);
-    kinds.push(all[1 + k % 6].clone());
-    kinds.push(all[1 + (k + 3) % 6].clone());
-    let mut runs: Vec<(RngKind, Nonces)> = vec![];
+    kinds.push(Some(all[1 + k % 6].clone()));
+    kinds.push(Some(all[1 + (k + 3) % 6].clone()));
+    if id % 3 == 1 {
+        // twice through RangeProof::prove (operating system's generator): same arguments, fresh randomness each time
+        kinds.push(None);
+        kinds.push(None);
+        rep.count("os_rng_proof_pairs", 1);
+    }
+    let mut runs: Vec<(Option<RngKind>, Nonces)> = vec![];
     for kind in kinds {
-        let (proof, ch, draws, _ev) = match probed_prove(&case, &kind) {
+        let (proof, ch, draws, _ev) = match probed_prove_from(&case, kind.as_ref()) {
             Ok(x) => x,
             Err(e) => {
                 rep.violation("C13 prove-failed", &format!("prover failed or panicked under external RNG {kind:?}: {e}"), replay("prove"));
